@@ -1024,7 +1024,9 @@ class UrlDispatcher(AbstractRouter, Mapping[str, AbstractResource]):
         if allowed_methods:
             return MatchInfoError(HTTPMethodNotAllowed(request.method, allowed_methods))
 
-        return MatchInfoError(self.HTTP_NOT_FOUND)
+        # A new exception per request: it is raised by the handler, so a shared
+        # instance would accumulate tracebacks and state set by middlewares.
+        return MatchInfoError(HTTPNotFound())
 
     def __iter__(self) -> Iterator[str]:
         return iter(self._named_resources)
